@@ -320,6 +320,37 @@ def record(td, rng, kinds, rid, notes_text=None, max_probes=60):
             if v is None:
                 return rec
             qs.append({"k": "hit", "b": p, "got": bool(v)})
+    # bursts: the different queries about ONE beat asked back to back in a random order (a lookup remembered from the
+    # previous query - whatever its kind or tag - must not leak into the next one); recorded for the kinds this check judges
+    if rng.random() < 0.6:
+        evp = td.event_positions()
+        for p in rng.sample(ps, min(len(ps), 10)) + rng.sample(evp, min(len(evp), 6)):
+            burst = ["bpm", "hit", ("time", rng.choice([0, 1, 2, 3])), "hit", ("time", None), "bpm", "hit", ("time", rng.choice([4, 5, 6]))]
+            rng.shuffle(burst)
+            for b in burst:
+                if b == "bpm":
+                    v = safe(lambda: eng.bpm_at(beat_of(p)))
+                    if v is None:
+                        return rec
+                    if "bpm" in kinds:
+                        got = [i + 1 for i, (_, bv) in enumerate(td.bpms) if Decimal(bv) == Decimal(v)]
+                        qs.append({"k": "bpm", "b": p, "got": got or [0]})
+                elif b == "hit":
+                    v = safe(lambda: eng.hittable(beat_of(p)))
+                    if v is None:
+                        return rec
+                    if "hit" in kinds:
+                        qs.append({"k": "hit", "b": p, "got": bool(v)})
+                else:
+                    tag = b[1]
+                    t = safe(lambda: eng.time_at(beat_of(p)) if tag is None else eng.time_at(beat_of(p), tag_enum(tag)))
+                    if t is None:
+                        return rec
+                    if "time" in kinds:
+                        tu = time_u(td, t) if sm else 0
+                        if sm and tu is None:
+                            sm = False
+                        qs.append({"k": "time", "b": p, "tag": 5 if tag is None else tag, "t": tu or 0, "_f": float(t)})
     if "beat" in kinds:
         def ask(t, tag):
             if tag is None:
